@@ -32,7 +32,9 @@ func layout(n, size int, rng *rand.Rand, caps []int) ([]byte, []region) {
 }
 
 // frame <fam> <opts> <d> <p> <size> <seed> <op> <args…>
-//   enc | ver <flip>| rec <mode> <E> <req> <capmode: big|small|exact|zero> | idx <order> | upd <changed> <nils>
+//
+//	enc | ver <flip>| rec <mode> <E> <req> <capmode: big|small|exact|zero> | idx <order> | upd <changed> <nils>
+//
 // output: per shard u (untouched) / w (written in place inside [0,len)) / a (re-allocated: caller memory untouched),
 // then guards=ok|BAD(where)
 func opFrame(a []string) string {
